@@ -153,7 +153,8 @@ func (t *TempoController) Tags(w http.ResponseWriter, r *http.Request) {
 		if i != 0 {
 			w.Write([]byte(","))
 		}
-		w.Write([]byte(strconv.Quote(tag)))
+		qtag, _ := json.Marshal(tag)
+		w.Write(qtag)
 		i++
 	}
 	w.Write([]byte("]}"))
@@ -311,7 +312,8 @@ func (t *TempoController) Values(w http.ResponseWriter, r *http.Request) {
 		if i != 0 {
 			w.Write([]byte(","))
 		}
-		w.Write([]byte(strconv.Quote(val)))
+		qval, _ := json.Marshal(val)
+		w.Write(qval)
 		i++
 	}
 	w.Write([]byte(`]}`))
